@@ -375,7 +375,7 @@ func (s *sys) Apply(op string) (obs, class string, viols []bfs.Viol) {
 	hdr := Build(Spec{Parent: s.parent, Number: number, Signer: signer, Coinbase: -1, Diff: diff, List: list, Mut: mut})
 	okRef, wantDiff, why := s.eligible(signer, number)
 	may := okRef && diff == wantDiff && mut == ""
-	cctx := c07.Fork(s.ctx, s.ctx.BlockTime())
+	cctx, write := c07.ForkW(s.ctx, s.ctx.BlockTime())
 	var err error
 	func() {
 		defer func() {
@@ -419,7 +419,7 @@ func (s *sys) Apply(op string) (obs, class string, viols []bfs.Viol) {
 		add("ineligible-header-accepted/"+strings.Fields(reason)[0]+mut, fmt.Sprintf("%s -- %s", desc, reason))
 	}
 	// commit the step; advance the model exactly as the statement prescribes
-	s.ctx = cctx
+	write()
 	s.parent = hdr
 	s.m.Head = number
 	s.m.Sealers[number] = signer
